@@ -757,7 +757,7 @@ func main() {
 		Name:     "c09",
 		Rule:     "each case is one of: 3 integer ops (fixed width at the value's own Uint64Length on byte-boundary values and [2^32,2^33) samples, delta/zigzag coded sequences incl. wrap-around deltas and decode of mutated bytes, fixed-width ints, Uint64Length), one ByteArrays build (or a layout-only build whose reserved total sits next to 2^8k or in 4..8 GiB, offset table and length read back; random reservations split over several Reserve calls, writes in random order, 0-6 items) + every item read back, one StringTable build, or one Uint64Map build (requested bucket bits 0..12, tag bits 0..16 (the builder uses at least as many bucket bits), tags from edge values 0/1/127/128/255/2^t-1/16383, ids from a small pool with ids below 2^bucketBits, shared buckets, top bits and duplicates) followed by FillTagged/FindFirst/FindFirstWithTag queries on present and absent ids, a full iteration and EachItem; non-trivial = delta with |d| >= 2^62, fixed width of a value >= 2^32, an exactly-filled ByteArrays with >= 3 writes, a string table with >= 5 adds, a map with duplicate ids and a top-bit id; distinct = by hash of the op text",
 		Quick:    2500,
-		Thorough: 120000,
+		Thorough: 40000,
 		Corpus: func(c *hx.Ctx) {
 			// fixed (C10-zigzag-decode): a delta of 2^63 / 2^62 decoded to 0 / -2^62
 			for _, vs := range [][]uint64{{1 << 63}, {1 << 62}, {0, 1 << 63, 0}, {1<<64 - 1, 1 << 62, 5}} {
